@@ -95,6 +95,7 @@ type TypeSpec struct {
 	Atomic  map[string][2]string // field -> rely, guar (expressions over old,new)
 	Const   map[string]bool
 	Free    map[string]bool // fields with no discipline claimed (documented)
+	Sync    map[string]bool // fields holding an internally synchronised value (sync.Map, sync.Once): used through their methods only
 	Ghost   map[string]string
 	Prot    map[string]string // field or ghost -> lock
 	LockInv map[string][]string
@@ -104,7 +105,7 @@ type TypeSpec struct {
 }
 
 func parseTypeSpec(b *Block) (*TypeSpec, error) {
-	ts := &TypeSpec{Name: b.Name, Atomic: map[string][2]string{}, Const: map[string]bool{}, Free: map[string]bool{}, Ghost: map[string]string{}, Prot: map[string]string{}, LockInv: map[string][]string{}, LockGuar: map[string][]Clause{}, Block: b}
+	ts := &TypeSpec{Name: b.Name, Atomic: map[string][2]string{}, Const: map[string]bool{}, Free: map[string]bool{}, Sync: map[string]bool{}, Ghost: map[string]string{}, Prot: map[string]string{}, LockInv: map[string][]string{}, LockGuar: map[string][]Clause{}, Block: b}
 	for _, c := range b.Clauses {
 		switch c.Kind {
 		case "atomic":
@@ -129,6 +130,10 @@ func parseTypeSpec(b *Block) (*TypeSpec, error) {
 		case "free":
 			for _, f := range strings.Fields(c.Text) {
 				ts.Free[f] = true
+			}
+		case "sync":
+			for _, f := range strings.Fields(c.Text) {
+				ts.Sync[f] = true
 			}
 		case "ghost":
 			fs := strings.Fields(c.Text)
@@ -250,10 +255,15 @@ func (kc *kernelCtx) runFunc(b *Block) *Unit {
 	x := newExec(kc.w, d)
 	var ts *TypeSpec
 	recvName := ""
-	if fn.Signature.Recv() != nil {
-		ts = kc.types[recvTypeName(fn)]
-		if len(fn.Params) > 0 {
-			recvName = fn.Params[0].Name()
+	outer := fn
+	for outer.Parent() != nil {
+		outer = outer.Parent()
+	}
+	if outer.Signature.Recv() != nil {
+		// a method, or a closure declared inside a method: the receiver's type contract applies
+		ts = kc.types[recvTypeName(outer)]
+		if len(outer.Params) > 0 {
+			recvName = outer.Params[0].Name()
 		}
 	}
 	if c := b.first("type"); c != nil {
@@ -303,6 +313,9 @@ func (kc *kernelCtx) runFunc(b *Block) *Unit {
 			fields[f] = true
 		}
 		for f := range ts.Free {
+			fields[f] = true
+		}
+		for f := range ts.Sync {
 			fields[f] = true
 		}
 		for f := range ts.Prot {
@@ -640,6 +653,12 @@ func (kc *kernelCtx) hooks(b *Block, ts *TypeSpec, recv string, inline map[strin
 		if ts.Free[f] {
 			return
 		}
+		if ts.Sync[f] {
+			if write {
+				x.obl(st, "sync-only:"+f, "false", "field "+f+" holds an internally synchronised value and must not be re-assigned", pos)
+			}
+			return
+		}
 		if l, ok := ts.Prot[f]; ok {
 			x.obl(st, "lockset:"+f, boolLit(st.Held[l]), fmt.Sprintf("access to %s requires %s", f, l), pos)
 			return
@@ -788,6 +807,11 @@ func (kc *kernelCtx) hooks(b *Block, ts *TypeSpec, recv string, inline map[strin
 		}
 	}
 	h.OnEvent = func(x *Exec, st *State, ev *Event) {
+		// element invariant of internally synchronised maps: everything stored is an Observer
+		if strings.HasSuffix(ev.Name, ".Store") && ts.Sync[strings.TrimSuffix(ev.Name, ".Store")] && len(ev.Args) == 2 {
+			ok := ev.Args[1].GoT != nil && hasMethod(ev.Args[1].GoT, "NextWithContext")
+			x.obl(st, "mapinv:"+strings.TrimSuffix(ev.Name, ".Store"), boolLit(ok), "every value stored in the map is an Observer (its readers assert that type)", ev.Pos)
+		}
 		for _, oe := range ts.OnEvent {
 			if !eventNameMatch(oe.Pattern, ev.Name) {
 				continue
